@@ -306,6 +306,31 @@ func c06Sinks(c *Ctx) {
 			c.Outcome("sink-failure-contained")
 		}
 	}
+	// every kind of failure directly in a sink body (not inside a called function,
+	// not inside try): the error must be collectable by addEventAndWait and usable
+	for _, a := range c06U {
+		for _, stmt := range []string{
+			"x := event.state.v[5]", "x := event.state.v.z", "x := event.state.v.z.y", "event.state.v.z := 1", "event.state.v[7] := 1", "a := 1\n  a.b := 2", "x := nosuch.field", "nosuch.f := 1",
+			"[p, q] := event.state.v", "x := event.state.v()", "for [p, q] in event.state.v {\n  }", "import \"nosuch\" as m", "return event.state.v", "x := new(event.state.v)", "x := -event.state.v",
+		} {
+			if c.Stopped() || !c.Mine() {
+				continue
+			}
+			src := fmt.Sprintf("sink s1\n kindmatch [\"x\"],\n {\n  %s\n }\nres := addEventAndWait(\"e\", \"x\", {\"v\": %s})\nt := \"{{res}}\"\nn := len(res)\nfor r in res {\n  for [k, e] in r.errors {\n    u := [e.error, e.type, e.detail, e.data]\n  }\n}", stmt, a.src)
+			c.Risky(src)
+			out := evalECAL(src, evalOpts{budget: 20000})
+			c.Nontrivial()
+			if out.panicKey != "" {
+				c.Viol("sink body failure: "+out.panicKey, fmt.Sprintf("%q panics: %s", src, out.panicMsg), src)
+				continue
+			}
+			if out.err != nil && out.stage == "eval" {
+				c.Viol("sink error reaches the caller of addEventAndWait as an error", fmt.Sprintf("%q: %v", src, out.err), src)
+				continue
+			}
+			c.Outcome("sink-failure-collected")
+		}
+	}
 }
 
 func c06Accepted(c *Ctx, full bool) {
